@@ -146,6 +146,21 @@ pub fn campaigns(ctx: &Ctx) -> Stats {
         }
     }
     st.merge(ctx.run_indexed("inadmissible-configurations", bad.len() as u64, None, |i| Some(fwd(&bad[i as usize]))));
+    // forward values and refusals do not depend on which operands are tracked
+    let nadm = cfgs.len() as u64;
+    st.merge(ctx.run_indexed("configurations-with-tracked-operands", nadm + bad.len() as u64, None, |i| {
+        let cfg = if i < nadm { &cfgs[i as usize] } else { &bad[(i - nadm) as usize] };
+        let sub = 1 + (i % 7);
+        Some(FwdCase { op: cfg.op(), leaves: cfg.leaves([sub & 1 == 1, sub & 2 == 2, sub & 4 == 4]), force_exact: None, second_is_view_of_first: None })
+    }));
+    // a refused call must leave nothing behind: refused, then admissible, in one thread
+    {
+        let pairs: Vec<(usize, usize)> = (0..bad.len().min(cfgs.len())).step_by((bad.len() / 300).max(1)).map(|k| (k, (k * 7) % cfgs.len())).collect();
+        st.merge(ctx.run_indexed("refused-then-admissible", pairs.len() as u64, None, |i| {
+            let (b, a) = pairs[i as usize];
+            Some(SeqCase { calls: vec![fwd(&bad[b]), fwd(&cfgs[a]), fwd(&bad[b]), fwd(&cfgs[(a + 1) % cfgs.len()])] })
+        }));
+    }
     // both factors are the SAME array (x x^T, x^T x, x x for square x), with every additive-term shape
     let mut same = vec![];
     for (r, k) in [(1usize, 1usize), (1, 3), (2, 1), (2, 2), (2, 3), (3, 2), (3, 3)] {
